@@ -500,6 +500,9 @@ def from_matrix44(fn):
             if _attr(t, "self", "_vec12") and _name(v, "vec12"):
                 done = True
                 continue
+            if _attr(t, "self", "_direct") and isinstance(v, ast.Constant) and type(v.value) is bool:
+                events.append(("setdirect", v.value))
+                continue
             raise Unsupported("from_matrix44 assignment: " + ast.dump(s))
         if isinstance(s, ast.If) and not s.orelse:
             t = s.test
@@ -527,6 +530,8 @@ def from_matrix44(fn):
             if e[2] is None:
                 raise Unsupported("rotation vector computed but never stored")
             out.append("FxTake %d %d %s" % (e[1], e[2], "true" if e[3] else "false"))
+        elif e[0] == "setdirect":
+            out.append("FxSetDirect %s" % ("true" if e[1] else "false"))
         else:
             out.append("FxNegIf %d [%s] %s" % (e[1], "; ".join(str(x) for x in e[2]), "true" if e[3] else "false"))
     return "{| fx_factor := %s; fx_events := [%s]; fx_sc := %s |}" % (kind, "; ".join(out), scale)
